@@ -153,7 +153,7 @@ def dump_case(fmt):
                 # labels wider than the PDB columns are refused with DumpError (C02's class "may_refuse")
                 .map(lambda s: dict(s, long_labels=False) if s.get("long_labels") else s),
                 min_size=1, max_size=6),
-            "iterable": st.sampled_from(["list", "generator", "raising_generator", "tuple"]),
+            "iterable": st.sampled_from(["generator", "raising_generator", "generator", "raising_generator", "list", "tuple"]),
             "raise_at": st.integers(0, 6),
         }
     )
@@ -229,15 +229,68 @@ def check_dump(spec, tmpdir):
     arg = {"list": datas, "tuple": tuple(datas), "generator": Once(), "raising_generator": Once()}[spec["iterable"]]
     problems = []
     labels = [f"dump:{fmt}", f"iterable:{spec['iterable']}", f"nframe:{n}"]
-    with warnings.catch_warnings(record=True):
-        warnings.simplefilter("always")
-        try:
-            dump_many(arg, path, fmt=fmt)
-            outcome = "ok"
-        except Boom:
-            outcome = "Boom"
-        except Exception as exc:  # noqa: BLE001
-            outcome = f"{type(exc).__name__}: {exc}"
+    # observe when text is handed to the output file, relative to the pulls of the iterable
+    writes_after_pull = {}
+    import builtins
+
+    import iodata.api as api_module
+
+    class FileProxy:
+        def __init__(self, fh):
+            self._fh = fh
+
+        def write(self, text):
+            writes_after_pull[log["pulled"]] = writes_after_pull.get(log["pulled"], 0) + 1
+            return self._fh.write(text)
+
+        def __getattr__(self, name):
+            return getattr(self._fh, name)
+
+        def __enter__(self):
+            self._fh.__enter__()
+            return self
+
+        def __exit__(self, *args):
+            return self._fh.__exit__(*args)
+
+    def spying_open(file, mode="r", *args, **kwargs):
+        fh = builtins.open(file, mode, *args, **kwargs)
+        if str(file) == path and "w" in mode:
+            log["opened_for_writing"] = True
+            return FileProxy(fh)
+        return fh
+
+    had_open = "open" in vars(api_module)
+    old_open = vars(api_module).get("open")
+    api_module.open = spying_open
+    try:
+        with warnings.catch_warnings(record=True):
+            warnings.simplefilter("always")
+            try:
+                dump_many(arg, path, fmt=fmt)
+                outcome = "ok"
+            except Boom:
+                outcome = "Boom"
+            except Exception as exc:  # noqa: BLE001
+                outcome = f"{type(exc).__name__}: {exc}"
+    finally:
+        if had_open:
+            api_module.open = old_open
+        else:
+            del api_module.open
+    if spec["iterable"] in ("generator", "raising_generator") and log.get("opened_for_writing"):
+        # streaming: frame k-1 is handed to the file before item k+1 is pulled, i.e. something is
+        # written between any two consecutive pulls from the second pull on
+        for k in range(2, log["pulled"]):
+            if writes_after_pull.get(k, 0) == 0:
+                problems.append(
+                    Problem(f"C13/dump_many/{fmt}/not_streamed",
+                            f"nothing was written between pulling item {k} and item {k + 1} "
+                            f"(writes after each pull: {sorted(writes_after_pull.items())[:8]})")
+                )
+                break
+    elif spec["iterable"] in ("generator", "raising_generator"):
+        labels.append("file_writes_not_observable")
     if spec["iterable"] in ("generator", "raising_generator"):
         if log["iter"] != 1:
             problems.append(Problem(f"C13/dump_many/{fmt}/iterated_twice", f"iter() called {log['iter']} times"))
